@@ -102,7 +102,7 @@ def number_matrices(M, up_then_down=False):
     return N, Sz, S2
 
 
-def random_hermitian_fermion_terms(rng, n_orb, restricted=True, scale=1.0, two_body=True, up_then_down=False):
+def random_hermitian_fermion_terms(rng, n_orb, restricted=True, scale=1.0, two_body=True, up_then_down=False, eightfold=True, cplx=False):
     """Number- and spin-conserving Hermitian Hamiltonian terms from random symmetric integrals.
 
     Returns dict of openfermion-style terms on 2*n_orb spin orbitals (interleaved by default).
@@ -125,21 +125,30 @@ def random_hermitian_fermion_terms(rng, n_orb, restricted=True, scale=1.0, two_b
             hs.append(hs[0])
         else:
             h = rng.normal(size=(n_orb, n_orb)) * scale
-            hs.append((h + h.T) / 2)
+            if cplx:
+                h = h + 1j * rng.normal(size=(n_orb, n_orb)) * scale
+            hs.append((h + h.conj().T) / 2)
     for s in range(2):
         for p in range(n_orb):
             for q in range(n_orb):
-                add(((so(p, s), 1), (so(q, s), 0)), float(hs[s][p, q]))
+                add(((so(p, s), 1), (so(q, s), 0)), complex(hs[s][p, q]) if cplx else float(hs[s][p, q]))
     if two_body:
         # (pq|rs) with 8-fold symmetry, spin-independent
         g = rng.normal(size=(n_orb,) * 4) * scale * 0.5
-        g = g + g.transpose(1, 0, 2, 3)
-        g = g + g.transpose(0, 1, 3, 2)
-        g = g + g.transpose(2, 3, 0, 1)
+        if cplx:
+            g = g + 1j * rng.normal(size=(n_orb,) * 4) * scale * 0.5
+        if eightfold and not cplx:
+            g = g + g.transpose(1, 0, 2, 3)
+            g = g + g.transpose(0, 1, 3, 2)
+            g = g + g.transpose(2, 3, 0, 1)
+        else:
+            # only what Hermiticity and particle exchange require: (pq|rs) = (rs|pq) = conj (qp|sr)
+            g = g + g.transpose(2, 3, 0, 1)
+            g = g + g.transpose(1, 0, 3, 2).conj()
         for p, q, r, s_ in itertools.product(range(n_orb), repeat=4):
             for s1 in range(2):
                 for s2 in range(2):
                     # 1/2 (pq|rs) a+_p,s1 a+_r,s2 a_s,s2 a_q,s1
                     t = ((so(p, s1), 1), (so(r, s2), 1), (so(s_, s2), 0), (so(q, s1), 0))
-                    add(t, 0.5 * float(g[p, q, r, s_]))
+                    add(t, 0.5 * (complex(g[p, q, r, s_]) if cplx else float(g[p, q, r, s_])))
     return terms
